@@ -97,7 +97,8 @@ PROPS = {
             "isParse_unique", "parse_rest_suffix", "parse_resume", "feedAll_eq_whole",
             "parse_progress", "parse_total", "channelId_total", "channelId_ok_iff",
             "boardId_total", "boardId_ok_iff"]],
-        harness=[("c07", ["dev", "release"])],
+        harness=[("c07", ["dev", "release"]), ("c20", ["dev"])],
+        needs_binaries=True,
         level_text="Lean theorems for all byte streams and all ways of cutting them: the parser consumes exactly the longest "
                    "prefix of the documented grammar (parse_sound_complete, with an unambiguity proof), classifies all 2^32 "
                    "words as specified by case analysis on the top byte (classify_spec), returns the documented fields, leaves "
@@ -105,7 +106,9 @@ PROPS = {
                    "the concatenation (feedAll_eq_whole); progress and totality included.",
         level_note="Trusted: winnow 0.6.1 combinator semantics, transcribed by hand as a second 'Raw' model layer that is "
                    "proved equal to the direct recursive model (parse_total) and tied to the real chronobox_fifo by the "
-                   "differential run (all 2- and 3-cuts of short streams, random k-cuts of long ones, top-byte sweep).",
+                   "differential run (all 2- and 3-cuts of short streams, random k-cuts of long ones, top-byte sweep). The "
+                   "program that consumes the parser (alpha-g-chronobox-timestamps, an anchor of this property) is run on the "
+                   "same kind of streams cut arbitrarily into banks, events and files (harness module c20).",
         technique="Lean 4 theorems over a two-layer hand-written model (winnow combinator transcription = direct recursion) "
                   "+ independent grammar + differential correspondence check",
         design_ref="DESIGN.md section 6, C07",
